@@ -136,7 +136,9 @@ HFORMS = ['plain', 'map', 'callable', 'seq', 'smap_a', 'smap_b', 'smap_c']     #
 # alphabets per tier: (kinds that may be BUILT, handler forms at inner levels); the last level always tries all four handler forms
 ALPHABET = {
     'quick': (['tup_a', 'tup_b', 'list_str', 'generic_int', 'inner_dc', 'outer_dc', 'float_t'], ['plain', 'callable', 'smap_a']),
-    'thorough': (KIND_NAMES, HFORMS),
+    # (the same-key shared mapping 'smap_c' is tried at the last level of every history and in the handler-form sequences; at
+    #  the inner levels of the depth-6 search a seventh form would multiply the thorough tier's running time by 2.5)
+    'thorough': (KIND_NAMES, [f for f in HFORMS if f != 'smap_c']),
 }
 
 
